@@ -240,3 +240,105 @@ impl SubCheck for ModuleLevel {
 		});
 	}
 }
+
+// ---------------------------------------------------------------------------------------------
+// served connection, subscribe call given up by an RPC middleware before the (raw) handler accepts
+// ---------------------------------------------------------------------------------------------
+
+#[derive(Clone, Debug, Serialize, Deserialize)]
+pub struct GivenUpCase {
+	/// per subscribe call: (the middleware gives the call up before the handler decides, number of sends afterwards)
+	pub subs: Vec<(bool, u8)>,
+}
+
+pub struct GivenUpByMiddleware;
+
+impl SubCheck for GivenUpByMiddleware {
+	type Case = GivenUpCase;
+	fn name(&self) -> &'static str {
+		"call-given-up-by-middleware"
+	}
+	fn cases(&self, tier: Tier) -> u32 {
+		tier.pick(3_000, 60_000)
+	}
+	fn strategy(&self, _tier: Tier) -> BoxedStrategy<GivenUpCase> {
+		proptest::collection::vec((any::<bool>(), 0u8..3), 1..4).prop_map(|subs| GivenUpCase { subs }).boxed()
+	}
+	fn run(&self, case: &GivenUpCase, obs: &mut Obs) {
+		let rt = rt();
+		rt.block_on(async {
+			let fix = Fixture::new(Cfg::default());
+			let Ok(mut ws) = fix.ws_with_give_up_middleware().await else {
+				obs.fail("c06g/ws-handshake", "failed".to_string());
+				return;
+			};
+			let mut frames: Vec<Value> = vec![];
+			let mut n = 0u32;
+			let mut ids: Vec<Value> = vec![];
+			for (i, (give_up, sends)) in case.subs.iter().enumerate() {
+				let rid = format!("s{i}");
+				let _ = ws.send_text(&json!({"jsonrpc":"2.0","id":rid,"method":"sub_r"}).to_string()).await;
+				settle().await;
+				let Some(tx) = fix.ctx.actors.lock().get(i).map(|a| a.tx.clone()) else {
+					obs.fail("c06g/handler-not-started", format!("subscribe call #{i}; case={case:?}"));
+					return;
+				};
+				let sub_id = fix.ctx.sub_ids.lock().get(i).cloned().unwrap_or(Value::Null);
+				ids.push(sub_id.clone());
+				if *give_up {
+					fix.ctx.gates.release(&format!("abandon:\"{rid}\""));
+					settle().await;
+				}
+				let (atx, mut arx) = oneshot::channel();
+				let _ = tx.send((Cmd::Accept, atx));
+				settle().await;
+				let ack = arx.try_recv().ok();
+				match (&ack, give_up) {
+					(Some(Ack::Accepted(_)), true) => obs.fail("c06g/accept-succeeded-for-a-given-up-subscribe-call", format!("call #{i}: the caller was told -32099, yet accept() handed the handler a live sink for {sub_id}; case={case:?}")),
+					(Some(Ack::AcceptFailed), true) | (Some(Ack::Accepted(_)), false) => {}
+					other => obs.fail("c06g/unexpected-accept-outcome", format!("call #{i}: {other:?}; case={case:?}")),
+				}
+				for _ in 0..*sends {
+					n += 1;
+					let (atx, _arx) = oneshot::channel();
+					let _ = tx.send((Cmd::Send(n), atx));
+					settle().await;
+				}
+				for e in ws.drain() {
+					if let WsEvent::Text(t) = e {
+						if let Ok(v) = serde_json::from_str::<Value>(&t) {
+							frames.push(v);
+						}
+					}
+				}
+			}
+			// no notification ever names the id of a given-up call; an accepted one got all its items
+			for (i, (give_up, sends)) in case.subs.iter().enumerate() {
+				let got = frames.iter().filter(|f| f["method"] == json!("notif_r") && f["params"]["subscription"] == ids[i]).count();
+				if *give_up {
+					obs.check(got == 0, "c06g/notifications-for-a-given-up-subscribe-call", || format!("call #{i} ({}): {got} notifications; frames {frames:?}; case={case:?}", ids[i]));
+				} else {
+					obs.check(got == *sends as usize, "c06g/notifications-missing", || format!("call #{i} ({}): {got} of {sends}; case={case:?}", ids[i]));
+				}
+				// and the table agrees
+				let uid = format!("u{i}");
+				let _ = ws.send_text(&json!({"jsonrpc":"2.0","id":uid,"method":"unsub_r","params":[ids[i]]}).to_string()).await;
+				settle().await;
+				let reply = ws.drain_texts().into_iter().filter_map(|t| serde_json::from_str::<Value>(&t).ok()).find(|v| v["id"] == json!(uid));
+				let want = !*give_up;
+				obs.check(reply.as_ref().and_then(|r| r["result"].as_bool()) == Some(want), if want { "c06g/unsubscribe-of-active-subscription-false" } else { "c06g/unsubscribe-true-for-a-subscription-that-was-never-established" }, || format!("call #{i}: {reply:?}; case={case:?}"));
+			}
+			if case.subs.iter().any(|s| s.0) && case.subs.len() >= 2 {
+				obs.nontrivial();
+			}
+			obs.class(format!("given-up:{}", case.subs.iter().filter(|s| s.0).count()));
+			let txs: Vec<_> = fix.ctx.actors.lock().iter().map(|a| a.tx.clone()).collect();
+			for tx in txs {
+				let (atx, _arx) = oneshot::channel();
+				let _ = tx.send((Cmd::ReturnOk, atx));
+			}
+			fix.ctx.gates.release_all();
+			settle().await;
+		});
+	}
+}
